@@ -229,8 +229,16 @@ def _safety(name):
 
 
 _ALL_UNITS = ["take_range", "sort_take", "split_order", "window_frame", "dialect_select", "ident_quote", "ids_names", "toposort", "rq_tables",
-              "select_shape", "span_units", "sql_prec", "prql_prec", "literals", "set_ops", "desugar", "resolve_guards", "lex_strings", "limit_clause", "static_eval", "operator_tpl", "rel_names", "lower_cols", "vec_utils", "group_take", "flatten_sort", "star_exclude", "std_arity", "limit_select", "rq_shape", "star_cols", "func_env", "json_lits", "cte_define", "type_meet", "fmt_strings", "concat_ops", "sstring_query", "sstring_cols", "lineage_except", "sort_infer", "setop_pairs"]
-prop("C12", _ALL_UNITS, select={u: _safety for u in _ALL_UNITS},
+              "select_shape", "span_units", "sql_prec", "prql_prec", "literals", "set_ops", "desugar", "resolve_guards", "lex_strings", "limit_clause", "static_eval", "operator_tpl", "rel_names", "lower_cols", "vec_utils", "group_take", "flatten_sort", "star_exclude", "std_arity", "limit_select", "rq_shape", "star_cols", "func_env", "json_lits", "cte_define", "type_meet", "fmt_strings", "concat_ops", "sstring_query", "sstring_cols", "lineage_except", "sort_infer", "setop_pairs", "setops_reach", "tuple_unpack"]
+
+
+def _c12_split_order(n):
+    # the rows that keep anything but a set operation out of the pipeline of a set operation are the precondition of the unreachable!() in translate_set_ops_pipeline
+    lab = n.split(".", 1)[1]
+    return _safety(n) or lab.startswith(("SO1.Union.", "SO1.Except.", "SO1.Intersect."))
+
+
+prop("C12", _ALL_UNITS, select=dict({u: _safety for u in _ALL_UNITS}, split_order=_c12_split_order),
      not_covered="every function that is not under contract (~150 unwrap/expect sites, panic!(cannot find cid) in lookup_cid), "
                  "recursion depth, chumsky, time bounds")
 claim("C12",
